@@ -682,6 +682,10 @@ func (fr *frame) enterLoop(l *loop, st *State) *State {
 			fr.specError(c, err)
 			continue
 		}
+		if c.Kind == "assume" {
+			fx.note("ASSUMED without proof at loop %d of %s: %s", l.ord, fr.name, c.Src)
+			continue
+		}
 		if facetLevel[c.Facet] == fr.level {
 			n0 := len(fx.enc.Obls)
 			fr.obligeSplit("inv-entry", fmt.Sprintf("loop%d.%s", l.ord, clauseName(c)), t, l.header.Instrs[0].Pos(), c.Facet, c.Tags)
@@ -757,6 +761,9 @@ func (fr *frame) backEdge(l *loop, cond Term, st *State) {
 			continue
 		}
 		if c.Kind == "candidate" && fr.fx.candFail[CandKey{c, l.ord}] {
+			continue
+		}
+		if c.Kind == "assume" {
 			continue
 		}
 		t, err := ev.EvalBool(c.E)
